@@ -218,6 +218,9 @@ def _get_unused_imports(ast_tree: ast.Module) -> Collection[str]:
     # `import a.b` binds the name `a`, so it is in use whenever `a` is.
     names.update(name for name in imports if name.split(".")[0] in names)
 
+    # Which names a star import provides is not visible here, so it cannot be judged unused.
+    names.add("*")
+
     return imports - names
 
 
